@@ -1415,8 +1415,10 @@ func (c *compiler) compileArray(e *Array) error {
 	l := (len(c.codes) - pc - 3) / 3
 	for i := range l {
 		if c.codes[pc+i].op != opfork ||
+			(i > 0 && c.codes[pc+i].v != pc+(l-i)*2+l) ||
 			c.codes[pc+i*2+l].op != opconst ||
-			(i < l-1 && c.codes[pc+i*2+l+1].op != opjump) {
+			(i < l-1 && (c.codes[pc+i*2+l+1].op != opjump ||
+				c.codes[pc+i*2+l+1].v != pc+i*2+l+3)) {
 			return nil
 		}
 	}
